@@ -116,6 +116,7 @@ def non_uniform_savgol(x, y, window, polynom):
 
     half_window = window // 2
     polynom += 1
+    x = np.asarray(x, dtype=float)  # unsigned abscissae would wrap in the differences below
 
     # Initialize variables
     A = np.empty((window, polynom))  # Matrix
